@@ -123,7 +123,7 @@ class DictDocument(ProtocolBase):
     def create_out_string(self, ctx, out_string_encoding='utf8'):
         raise NotImplementedError()
 
-    def _check_freq_dict(self, cls, d, fti=None):
+    def _check_freq_dict(self, cls, d, fti=None, flat=False):
         if fti is None:
             fti = cls.get_flat_type_info(cls)
 
@@ -133,7 +133,11 @@ class DictDocument(ProtocolBase):
             attrs = self.get_cls_attrs(v)
             min_o, max_o = attrs.min_occurs, attrs.max_occurs
 
-            if issubclass(v, Array) and v.Attributes.max_occurs == 1:
+            if flat and val > 0 and issubclass(v, Array) \
+                                             and v.Attributes.max_occurs == 1:
+                # a flat document has one entry per array item, so that's what
+                # was counted. no entry at all means the array itself is
+                # missing, which is up to its own min_occurs.
                 v, = v._type_info.values()
                 attrs = self.get_cls_attrs(v)
                 min_o, max_o = attrs.min_occurs, attrs.max_occurs
